@@ -28,6 +28,29 @@ fn main() {
             }
         }
         Some("replay") => replay_file(props::all(), args.get(2).expect("path")),
+        Some("fuzz-replay") => {
+            // fuzz-replay <target> <crash file>: decode a libFuzzer input, write the replay file, print the verdict
+            let target = args.get(2).expect("target");
+            let data = std::fs::read(args.get(3).expect("file")).expect("read crash file");
+            match scverif::fuzz::run(target, &data) {
+                Ok(()) => {
+                    println!("fuzz input passes: target={}", target);
+                    0
+                }
+                Err((case, f)) => {
+                    let (prop, sub) = scverif::fuzz::target_home(target);
+                    let root = std::env::var("VERIF_ROOT").unwrap_or("/verif".into());
+                    let dir = format!("{}/replays/found", root);
+                    let _ = std::fs::create_dir_all(&dir);
+                    let path = format!("{}/{}-{}-fuzz-{}.json", dir, prop, sub, std::path::Path::new(args.get(3).unwrap()).file_name().unwrap().to_string_lossy());
+                    let body = serde_json::json!({"property": prop, "sub": sub, "sig": f.sig, "msg": f.msg, "seed": -1, "case": case, "found_by": format!("libFuzzer target {}", target)});
+                    let _ = std::fs::write(&path, serde_json::to_string_pretty(&body).unwrap());
+                    println!("VIOLATION property={} replay={}", prop, path);
+                    println!("  sub={} sig={} :: {}", sub, f.sig, f.msg.chars().take(800).collect::<String>());
+                    1
+                }
+            }
+        }
         Some("list") => {
             for p in props::all() {
                 println!("{} {}", p.id, p.subs.iter().map(|s| s.name()).collect::<Vec<_>>().join(","));
